@@ -1072,7 +1072,8 @@ def send_payloads(runner, label, payloads, r, tier, cfg=None, tcp=True, udp=True
     if udp:
         fr = []
         for pl in payloads:
-            fr.append(l3_variant(p4.udp(r.randrange(65536), r.randrange(65536), pl), len(fr)))
+            # over IPv4 a sender may transmit no UDP checksum at all (field 0): as valid as a computed one
+            fr.append(l3_variant(p4.udp(r.randrange(65536), r.randrange(65536), pl, zero_csum=(len(fr) % 7 == 3)), len(fr)))
             if v6:
                 fr.append(l3_variant(p6.udp(r.randrange(65536), r.randrange(65536), pl), len(fr)))
         for ch in chunks(fr, 3000):          # resets are cut points for the parallel validation (and TLC follows
@@ -1382,7 +1383,7 @@ def gen_rpc(runner, tier, seed):
         for k in range(r.choice([2, 3, 3, 4, 5])):
             v, pr = r.choice([(2, 3), (4, 0), (3, 4), (2, 4), (9, 1), (2, 77), (4, 3), (2, 0x103), (3, 0x104), (4, 0x10003), (2, 0xffffff04), (2, 0x100)])
             prog = r.choice([100000, 100000, 100003])
-            q = rpc_call(xid(), prog, v, pr, args=struct.pack(">IIII", 100003, 3, 6, 0) if pr & 0xff == 3 else b"",
+            q = rpc_call(xid(), prog, v, pr, args=struct.pack(">IIII", 100003, 3, 6, 0) if pr & 0xff == 3 else (rb(r, 1216) if r.random() < 0.15 else b""),
                          cred=r.choice([b"", b"", rb(r, 20), rb(r, 8)]), cred_flavor=r.choice([0, 1]), tcp=True)
             if k and r.random() < 0.2:
                 q = rpc_call(xid(), mtype=1, tcp=True)                      # a reply message where a call is expected
